@@ -70,6 +70,12 @@ class Printer:
                 self._fs_classes[sv.get_id()] = (classes[key], n)
         c, n = self._fs_classes[term.get_id()]
         letter = 'abcdefghijklmnopqrstuvwxyz'[c % 26]
+        # a string whose character count was asked for: n bytes, k characters -> (n - k) two-byte characters + ASCII letters
+        for sv, kv in self.ctx.notes.get('nchars', []):
+            if sv.get_id() == term.get_id():
+                k = self.model.eval(kv, model_completion=True).as_long()
+                two = max(0, min(n - k, n // 2))
+                return '\u00e9' * two + letter * (n - 2 * two)
         return letter * n
 
     def variant_name(self, a):
